@@ -54,7 +54,7 @@ func testCondOK(ctx *Ctx, v *any, ok *bool, args []any) {
 	}
 	if fin, ok1 := args[0].(**testobj.TestFinance); ok1 {
 		c := ctx.GetCounter("__testUserNextHistory999counter")
-		if c >= len((*fin).History) {
+		if *fin == nil || c >= len((*fin).History) {
 			*ok = false
 			return
 		}
